@@ -98,8 +98,22 @@ type holder struct {
 	R io.Reader
 }
 
+func mkWriter(i int) (*upperWriter, string) {
+	return &upperWriter{}, "job " + string(rune('a'+i%26))
+}
+
+func mkCopy(i int) (*upperWriter, *countReader, int64) {
+	return &upperWriter{}, &countReader{max: 9 + i}, int64(4 + i)
+}
+
 func job(i int) {
-	switch hook.Choose(14) {
+	switch hook.Choose(15) {
+	case 14:
+		// f(g()): the values returned by g are converted one by one to the parameters of the
+		// compiled function (program types to compiled interfaces, the last one as is)
+		n, err := io.WriteString(mkWriter(i))
+		m, err2 := io.CopyN(mkCopy(i))
+		hook.Ev("multi-value", i, n, err == nil, m, err2 == nil)
 	case 13:
 		// values of program types stored through interface-typed places of every kind,
 		// then used by compiled code
